@@ -1,6 +1,8 @@
-NOTES = ('Static analysis only: every verdict is computed from the current sources under /repo (typed clang AST, CFG, tables in the source). '
-         'Exit 0 pass / 1 VIOLATION / 2 ANALYSIS-BROKEN. Properties not yet claimed are listed under not_applicable with the reason; '
-         'the list shrinks as rule modules land (DESIGN.md section 7).')
+NOTES = ('Static analysis only: every verdict is computed from the current sources under /repo (typed clang AST, CFG, tables in the source); nothing of /repo is executed. '
+         'Exit 0 pass / 1 VIOLATION / 2 ANALYSIS-BROKEN (a vanished anchor or fewer rule instances than confirmed by hand). All 20 properties are claimed, each for the clauses '
+         'named in its level text; what is not decided is in its note and in DESIGN.md section 6. The thorough tier widens the finite domains of the evaluated rules: '
+         'C02/C03 type universe 23 -> 49 typifications, C05/C06 add every witness sentence of the tree grammar (one per production x operand root kind x position), '
+         'C01 quantifier domains up to 5 elements, C20 interval window 0..8; the structural rules are exhaustive over the source in both tiers.')
 
 CHECKS = {
  'C11': {
